@@ -304,7 +304,14 @@ class Interp:
                 if isinstance(dst, Arr):
                     self.emit_slice_assign(dst, rhs, st, ms, aug=type(st.op).__name__)
                     return
-                # element of an array with known content: treat as element write
+                # a single element: recorded as an element store with its operator (content closed forms are not tracked through it)
+                dst2 = self.index_array(base, self.eval_index(st.target.slice, scope, ms), st, ms, for_store=True)
+                if isinstance(dst2, tuple) and dst2 and dst2[0] == "elem":
+                    if dst2[1].alloc.valfn is not None:
+                        dst2[1].alloc.valfn = None
+                        dst2[1].alloc.valfn_lost = True
+                    self.emit_slice_assign(dst2, rhs, st, ms, aug=type(st.op).__name__)
+                    return
                 raise Unsupported("augmented element assignment at %s" % self.where(st, ms))
         val = self.binop(st.op, cur, rhs, st, ms)
         self.assign(st.target, val, scope, ms, st, aug=True)
